@@ -554,8 +554,9 @@ func suiteDateFun(o *Out, thorough bool, seed int64) {
 			o.Fail(line(c.f), "timeFormat does not render the layout: "+got)
 		}
 	}
-	setLocal(0)
-	for _, f := range []string{"millSecond(now())", "millSecond(toDay())"} {
+	for _, clockOff := range []int{0, 19800, -34200, 50400} {
+	setLocal(clockOff)
+	for _, f := range []string{"millSecond(now())", "millSecond(toDay())", "hour(toDay()) * 3600 + minute(toDay()) * 60 + second(toDay())"} {
 		src, _ := formula.ParseSourceCode([]byte(f))
 		before := time.Now()
 		v, err := formula.NewRunner().Resolve(context.Background(), src.Expression)
@@ -563,6 +564,13 @@ func suiteDateFun(o *Out, thorough bool, seed int64) {
 		ms, ok := v.(float64)
 		if err != nil || !ok {
 			o.Fail(line(f), "clock builtin failed")
+			continue
+		}
+		if strings.HasPrefix(f, "hour(") {
+			if ms != 0 {
+				o.Fail(line(f), fmt.Sprintf("toDay is not local midnight: %v seconds past midnight in a zone with offset %d", ms, clockOff))
+			}
+			o.Case(fmt.Sprintf("NOP\tclock\t%d:%s", clockOff, f), "-", true)
 			continue
 		}
 		lo, hi := float64(before.UnixMilli()), float64(after.UnixMilli())
@@ -574,8 +582,10 @@ func suiteDateFun(o *Out, thorough bool, seed int64) {
 		} else if ms < lo-1 || ms > hi+1 {
 			o.Fail(line(f), "now lies outside the wall-clock bracket of the call")
 		}
-		o.Case("NOP\tclock\t"+f, "-", true)
+		o.Case(fmt.Sprintf("NOP\tclock\t%d:%s", clockOff, f), "-", true)
 	}
+	}
+	setLocal(0)
 }
 
 // ---------- C08: purity over histories ----------
@@ -633,7 +643,7 @@ var purityPool = []string{"(1 + 2) * 3", "a.b + c", "$x = a.b, $x * 2", "len(s) 
 	"join(['a','b'], '-')", "left(s, 2) + right(s, 1)", "date(2024, 1, 31)", "year(addDate(date(2024,1,31), 0, 1, 0))", "typeof a", "a.b == 1 && !c",
 	"1 / 3", "0.1 + 0.2", "'q' < s", "round(2.5) + roundBank(2.5)", "this.c", "f(1, 's')", "s.k", "toString(1.50)", "1 +", "a b", "'open", "[1,", "~5 & 3",
 	"regexp(s, '^h')", "replace(s, 'l', 'L')", "mid(s, 1, 3)", "abs(-c)", "ceil(1.2) + floor(-1.2)", "toInt('12') + toFloat('1.5')", "includes(['a'], 'a')",
-	"lpad('7', '0', 3)", "c ? 1 : 2", "(a).b", "f(a...)", "null == x", "$y = 1, $y = $y + 1, $y", "weekDay(date(2000, 1, 1))"}
+	"lpad('7', '0', 3)", "c ? 1 : 2", "2.5 * 2", "7.5 * 0.5", "roundBank(7.5) + roundBank(0.5)", "round(2.5)", "-c", "abs(c) + c", "$n = -c, c", "(a).b", "f(a...)", "null == x", "$y = 1, $y = $y + 1, $y", "weekDay(date(2000, 1, 1))"}
 
 func purityData(i int) map[string]interface{} {
 	f := func(a *decimal.Big, b string) (string, error) { return a.String() + b, nil }
